@@ -30,6 +30,10 @@ fn main() {
     std::panic::set_hook(Box::new(|info| {
         let th = std::thread::current();
         let msg = format!("thread '{}': {}", th.name().unwrap_or("?"), info).replace('\n', " ");
+        if th.name() == Some("main") {
+            // a panic of the harness itself is a harness failure, not an observation
+            eprintln!("HARNESS PANIC: {}", msg);
+        }
         if let Ok(mut g) = sched::LAST_PANIC.lock() {
             *g = msg;
         }
